@@ -55,6 +55,12 @@ def h_order1(ctx, I, r, noise_mode, seed):
     ctx.claim('first_order_terms', ctx.all_([ctx.eq(A.f1[k][x], f1[k][x]) for k in range(d) for x in dom[k]]))
     i0 = [dom[k][0] for k in range(d)]
     ctx.claim('call_is_sum_of_terms', ctx.eq(A(np.array(i0)), f0 + sum((f1[k][i0[k]] for k in range(d)), 0)))
+    # one model object asked for cores repeatedly (other rank, then again): same additive model every time
+    for rep, rr in enumerate((r, r + 1, r)):
+        Fr = ref_full(A.cores(rr, noise))
+        ctx.claim('model_object_reusable', ctx.all_([ctx.eq(Fr[idx], f0 + sum((f1[k][dom[k][idx[k]]] for k in range(d)), 0))
+                                                     for idx in multi_indices(ns)]))
+    ctx.claim('terms_unchanged_by_cores', ctx.all_([ctx.eq(A.f1[k][x], f1[k][x]) for k in range(d) for x in dom[k]]))
     ctx.canary('canary', ctx.eq(F[(0,) * d], f0 + 1))
 
 
